@@ -1,6 +1,7 @@
 package main
 
 import (
+	"regexp"
 	"strings"
 
 	"golang.org/x/tools/go/ssa"
@@ -258,6 +259,15 @@ func runC04(p *Program, r *Result) {
 			val := short(tb.Term(s.Val).String())
 			// the appended element is that iteration's error, as it is or wrapped by a formatting call
 			okVal := strings.HasPrefix(val, "Concat(Field(") && strings.Contains(val, ".Errors") && strings.Contains(val, "invoke (age.Identity).Unwrap(") && strings.Contains(val, ").1")
+			if okVal && !(strings.Contains(val, "List(invoke (age.Identity).Unwrap(") && strings.HasSuffix(val, ".1))")) {
+				// wrapped: only a %w wrapper keeps errors.Is(cause, ErrIncorrectIdentity) true
+				okVal = strings.Contains(val, "fmt.Errorf(") && strings.Contains(val, "%w")
+				for _, pa := range regexp.MustCompile(`fmt\.Errorf\("((?:[^"\\]|\\.)*)"`).FindAllStringSubmatch(val, -1) {
+					if !strings.Contains(pa[1], "%w") {
+						okVal = false
+					}
+				}
+			}
 			if ok && okVal {
 				// and the sentinel edge always passes the store before continuing
 				ifi := a.If
